@@ -142,6 +142,8 @@ def op_goal(op, cs):
         "nth1_last": "( nth1(%d, S, E0) -> R = yes(E0) ; R = no )" % n,
         "nth0_first": "( nth0(0, S, E0) -> R = yes(E0) ; R = no )",
         "nth0_out": "( nth0(%d, S, _) -> R = yes ; R = no )" % n,
+        "suffix_pair": "S = [_|T0], c20_list(%s, [], K0), compare(O1, S-T0, K0-K0), compare(O2, K0-K0, S-T0), "
+                       "( S-T0 == K0-K0 -> I0 = yes ; I0 = no ), R = r(O1, O2, I0)" % codes(cs),
         "walk_arg": "c20_walk_arg(S, H0, T0), R = w(H0, T0)",
         "walk_univ": "c20_walk_univ(S, H0, T0), R = w(H0, T0)",
         "head": "( c20_hd(S, H0, T0) -> R = yes(H0, T0) ; R = no )",
